@@ -294,13 +294,13 @@ Qed.
 Fixpoint dom_u (u lo : Z) (cs : list cue) : Prop :=
   match cs with
   | [] => True
-  | (s, e) :: t => lo <= s /\ s + u <= e /\ s < 82800000000 /\ e < 86400000000 /\ dom_u u e t
+  | (s, e) :: t => lo <= s /\ s + u <= e /\ s < 86396000000 /\ e < 86400000000 /\ dom_u u e t
   end.
 
 Lemma dom_u_weaken : forall u lo lo' cs, lo' <= lo -> dom_u u lo cs -> dom_u u lo' cs.
 Proof. intros u lo lo' [|[s e] t] H D; [exact I|]. cbn [dom_u] in *. intuition lia. Qed.
 
-Lemma sorted_from_dom_u : forall u lo cs, 0 <= u -> sorted_from u lo 82800000000 cs = true -> dom_u u lo cs.
+Lemma sorted_from_dom_u : forall u lo cs, 0 <= u -> sorted_from u lo 86396000000 cs = true -> dom_u u lo cs.
 Proof.
   intros u lo cs Hu. revert lo. induction cs as [|[s e] t IH]; intros lo H; [exact I|].
   cbn [sorted_from] in H. cbn [dom_u].
@@ -388,14 +388,22 @@ Definition ev_abs (e : sev) : Z * bool :=
 Lemma floor_ms_inject : forall z, floor_ms (inject_Z z) = z / 1000.
 Proof. intros. rewrite floor_ms_div, Qfloor_inject. reflexivity. Qed.
 
-Lemma sami_spec_abs : forall cs i, map ev_abs (sami_spec (map cue_q cs) i) = sami_abs cs.
+Definition flip_blank (p : Z * bool) : Z * bool := (fst p, negb (snd p)).
+
+Lemma sami_rule_abs : forall cs, map flip_blank (sami_rule (map cue_q cs)) = sami_abs cs.
 Proof.
-  induction cs as [|[s e] t IH]; intros i; [reflexivity|].
-  cbn [map cue_q sami_spec fst snd sami_abs ev_abs]. rewrite floor_ms_inject. f_equal.
+  induction cs as [|[s e] t IH]; [reflexivity|].
+  cbn [map cue_q sami_rule fst snd sami_abs flip_blank negb]. rewrite floor_ms_inject. f_equal.
   rewrite map_app, IH.
   destruct t as [|[s' e'] t']; [reflexivity|].
   cbn [map cue_q fst snd]. rewrite !floor_ms_inject.
   destruct (s' / 1000 =? e / 1000); reflexivity.
+Qed.
+
+Lemma sami_spec_abs : forall cs, map ev_abs (sami_write (map cue_q cs)) = sami_abs cs.
+Proof.
+  intros cs. rewrite <- sami_rule_abs, <- sami_sync_rule. rewrite map_map. apply map_ext.
+  intros [ms i|ms]; reflexivity.
 Qed.
 
 Lemma sami_abs_incr : forall cs lo b, dom_u 1000 lo cs ->
@@ -461,9 +469,9 @@ Proof.
     cbn [dom_u] in *. unfold big_unit in Hu. destruct D as [E1 [E2 [E3 [E4 E5]]]].
     split; [lia|split; [lia|split; [lia|split; [lia|apply IH; exact E5]]]]. }
   split.
-  - cbn [hop pi]. rewrite sami_sync_rule.
+  - cbn [hop pi].
     (* the events as abstract paragraphs with unpadded start strings *)
-    set (evs := sami_spec (map cue_q cs) 0).
+    set (evs := sami_write (map cue_q cs)).
     assert (A : map ev_abs evs = sami_abs cs) by apply sami_spec_abs.
     pose (ps := map (fun p : Z * bool => mkSp 0 (fst p) (snd p)) (sami_abs cs)).
     assert (P1 : map (fun p => (sp_ms p, sp_text p)) ps = sami_abs cs).
@@ -507,9 +515,9 @@ Qed.
 
 Lemma run_model_exact_gen : forall chain u lo cs, big_unit u ->
   Forall (fun f => unit_of f <= u) chain -> 0 <= lo -> dom_u u lo cs ->
-  run_model chain cs = Ok (run chain cs).
+  run_model chain cs = Ok (run chain cs) /\ exists lo', 0 <= lo' /\ dom_u u lo' (run chain cs).
 Proof.
-  induction chain as [|f t IH]; intros u lo cs Hu Hc Hlo D; [reflexivity|].
+  induction chain as [|f t IH]; intros u lo cs Hu Hc Hlo D; [split; [reflexivity|exists lo; split; assumption]|].
   inversion Hc as [|x l Hf Ht]; subst.
   destruct (hop_exact f u lo cs Hu Hf Hlo D) as [H1 H2].
   cbn [run_model run fold_left]. rewrite H1. cbn [bind].
@@ -537,7 +545,7 @@ Fixpoint dom_s (u lo : Z) (cs : list cue) : Prop :=
       /\ dom_s u e t
   end.
 
-Lemma starts_apart_dom_s : forall u lo cs, starts_apart u lo 82800000000 cs = true -> dom_s u lo cs.
+Lemma starts_apart_dom_s : forall u lo cs, starts_apart u lo 86400000000 cs = true -> dom_s u lo cs.
 Proof.
   intros u lo cs. revert lo. induction cs as [|[s e] t IH]; intros lo H; [exact I|].
   cbn [starts_apart] in H. cbn [dom_s].
@@ -606,9 +614,9 @@ Qed.
 
 Lemma run_model_exact_gen_s : forall chain u lo cs, big_unit u ->
   Forall (fun f => unit_of f <= u) chain -> existsb is_sami chain = false -> 0 <= lo -> dom_s u lo cs ->
-  run_model chain cs = Ok (run chain cs).
+  run_model chain cs = Ok (run chain cs) /\ exists lo', 0 <= lo' /\ dom_s u lo' (run chain cs).
 Proof.
-  induction chain as [|f t IH]; intros u lo cs Hu Hc Hs Hlo D; [reflexivity|].
+  induction chain as [|f t IH]; intros u lo cs Hu Hc Hs Hlo D; [split; [reflexivity|exists lo; split; assumption]|].
   inversion Hc as [|x l Hf Ht]; subst.
   cbn [existsb] in Hs. apply orb_false_iff in Hs. destruct Hs as [Hs1 Hs2].
   destruct (hop_exact_s f u lo cs Hu Hs1 Hf Hlo D) as [H1 H2].
@@ -619,25 +627,37 @@ Qed.
 
 (* the chain of model hops - printing every timing token with the writer models and parsing it
    back with pycaption's own reader models - is the closed form, on the whole domain *)
-Theorem run_model_exact : forall chain cs, chain_dom chain cs = true ->
-  run_model chain cs = Ok (expected chain cs).
+Lemma run_model_twice_gen : forall chain cs, chain_dom chain cs = true ->
+  run_model chain cs = Ok (run chain cs) /\ run_model chain (run chain cs) = Ok (run chain (run chain cs)).
 Proof.
-  intros chain cs D. rewrite <- run_closed_form.
-  destruct chain as [|f t]; [reflexivity|].
+  intros chain cs D.
+  destruct chain as [|f t]; [split; reflexivity|].
   pose proof (coarsest_unit (f :: t)) as Hu.
   assert (Hb : big_unit (coarsest (f :: t))).
   { unfold coarsest, big_unit. destruct (existsb is_mdvd (f :: t)); lia. }
+  assert (Hc : Forall (fun g => unit_of g <= coarsest (f :: t)) (f :: t)) by (apply chain_units_le; discriminate).
   unfold chain_dom in D. destruct (existsb is_sami (f :: t)) eqn:ES.
-  - apply (run_model_exact_gen (f :: t) (coarsest (f :: t)) 0 cs Hb).
-    + apply chain_units_le. discriminate.
-    + lia.
+  - destruct (run_model_exact_gen (f :: t) (coarsest (f :: t)) 0 cs Hb Hc ltac:(lia)) as [E1 [lo' [L D']]].
     + apply sorted_from_dom_u; [unfold big_unit in Hb; lia|exact D].
+    + split; [exact E1|]. exact (proj1 (run_model_exact_gen (f :: t) (coarsest (f :: t)) lo' _ Hb Hc L D')).
   - apply andb_true_iff in D. destruct D as [D _].
-    apply (run_model_exact_gen_s (f :: t) (coarsest (f :: t)) 0 cs Hb).
-    + apply chain_units_le. discriminate.
-    + exact ES.
-    + lia.
+    destruct (run_model_exact_gen_s (f :: t) (coarsest (f :: t)) 0 cs Hb Hc ES ltac:(lia)) as [E1 [lo' [L D']]].
     + apply starts_apart_dom_s. exact D.
+    + split; [exact E1|]. exact (proj1 (run_model_exact_gen_s (f :: t) (coarsest (f :: t)) lo' _ Hb Hc ES L D')).
+Qed.
+
+Theorem run_model_exact : forall chain cs, chain_dom chain cs = true ->
+  run_model chain cs = Ok (expected chain cs).
+Proof.
+  intros chain cs D. rewrite <- run_closed_form. exact (proj1 (run_model_twice_gen chain cs D)).
+Qed.
+
+(* the SECOND pass of the model over its own output changes nothing *)
+Theorem run_model_second_pass : forall chain cs, chain_dom chain cs = true ->
+  (do o1 <- run_model chain cs; run_model chain o1) = Ok (expected chain cs).
+Proof.
+  intros chain cs D. destruct (run_model_twice_gen chain cs D) as [E1 E2].
+  rewrite E1. cbn [bind]. rewrite E2. rewrite chain_fixpoint, run_closed_form. reflexivity.
 Qed.
 
 (* hence the model meets the property oracle: closed form after one pass, unchanged by a second *)
@@ -651,14 +671,14 @@ Qed.
 (* ---- outside the domain: cues shorter than the resolution (recorded findings) ------------- *)
 (* sorted, non-overlapping, positive length - but shorter than one millisecond *)
 Lemma short_cues_srt_merge_refuted :
-  exists chain cs, sorted_from 1 0 82800000000 cs = true /\ run_model chain cs <> Ok (expected chain cs).
+  exists chain cs, sorted_from 1 0 86396000000 cs = true /\ run_model chain cs <> Ok (expected chain cs).
 Proof.
   exists [FDfxp; FSrt], [(1000, 1400); (1500, 1900); (5000, 9000)].
   split; [reflexivity|]. vm_compute. discriminate.
 Qed.
 
 Lemma short_cue_sami_end_refuted :
-  exists cs, sorted_from 1 0 82800000000 cs = true /\ hop FSami cs <> Ok (pi FSami cs).
+  exists cs, sorted_from 1 0 86396000000 cs = true /\ hop FSami cs <> Ok (pi FSami cs).
 Proof.
   exists [(1000, 1400); (3000, 4000)]. split; [reflexivity|]. vm_compute. discriminate.
 Qed.
@@ -669,19 +689,26 @@ Proof.
   induction a as [|c t IH]; [reflexivity|]. cbn [combine forallb fst snd]. rewrite !Z.eqb_refl, IH. reflexivity.
 Qed.
 
-Lemma cues_close_refl : forall u a, cues_close u a a = true.
+Lemma near_fl : forall u t, is_unit u -> near u t (fl u t) = true.
+Proof. intros u t Hu. unfold near, fl, is_unit in *. destruct Hu as [->|[->| ->]]; lia. Qed.
+
+Lemma within_nf : forall u b cs, is_unit u -> within u b cs (nf u b cs) = true.
 Proof.
-  intros u a. unfold cues_close. rewrite Nat.eqb_refl. cbn [andb].
-  induction a as [|c t IH]; [reflexivity|]. cbn [combine forallb fst snd]. rewrite !Z.eqb_refl, IH. reflexivity.
+  intros u b cs Hu. unfold nf. induction cs as [|[s e] t IH]; [destruct b; reflexivity|].
+  destruct b.
+  - destruct t as [|c' t'].
+    + cbn [map set_last_end within pi_pt fst snd]. rewrite near_fl by exact Hu. reflexivity.
+    + cbn [map] in *. rewrite set_last_end_cons2. cbn [within pi_pt fst snd].
+      rewrite !near_fl by exact Hu. cbn [andb orb]. exact IH.
+  - cbn [map within pi_pt fst snd]. rewrite !near_fl by exact Hu. rewrite orb_true_r. cbn [andb]. exact IH.
 Qed.
 
-(* the chain of model hops, run twice, satisfies the property oracle on the whole domain *)
+(* the chain of model hops, REALLY run twice, satisfies the property oracle on the whole domain *)
 Theorem run_model_meets_oracle : forall chain cs, chain_dom chain cs = true ->
-  ok_chain chain cs (run_model chain cs) (do o1 <- run_model chain cs; Ok (run chain o1)) = true.
+  ok_chain chain cs (run_model chain cs) (do o1 <- run_model chain cs; run_model chain o1) = true.
 Proof.
-  intros chain cs D. rewrite run_model_exact by exact D. cbn [bind]. unfold ok_chain.
-  rewrite cues_close_refl. cbn [andb].
-  rewrite <- run_closed_form. rewrite chain_fixpoint. apply cues_eqb_refl.
+  intros chain cs D. rewrite run_model_second_pass by exact D. rewrite run_model_exact by exact D. unfold ok_chain.
+  unfold expected at 1. rewrite within_nf by apply coarsest_unit. apply cues_eqb_refl.
 Qed.
 
 (* ---- several languages through DFXP / SAMI ---------------------------------------------------------- *)
